@@ -24,7 +24,7 @@ GEN_WORKERS = 4
 
 C33_WHY = {"Replenished", "HandlerData"}
 C34_WHY = {"DataFits", "DataOrder", "SendAfterEnd", "DataBeforeHeaders"}
-C35_WHY = {"Outcome", "MustStart", "BadStart", "Ack", "Panic"}
+C35_WHY = {"Outcome", "MustStart", "BadStart", "OverLimit", "Ack", "Panic"}
 
 
 def prop_of(b):
@@ -265,7 +265,7 @@ def run_cases(ctx, cases, decisive, label):
     return nbad
 
 
-BASE = {"DATALENS": "{1}", "SW0": 39321, "OCW0": 65536, "OSW0": 32768, "MAXS": 2, "SIDS": "{1,3}", "TRAILERS": '{"trailers"}',
+BASE = {"ESS": "{TRUE, FALSE}", "DATALENS": "{1}", "SW0": 39321, "OCW0": 65536, "OSW0": 32768, "MAXS": 2, "SIDS": "{1,3}", "TRAILERS": '{"trailers"}',
         "PADS": "{0}", "WUINCS": "{1}", "IWS": "Absent", "MFS": "Absent", "CLS": "ClNone",
         "READLENS": "{1}", "WRITELENS": "{16384}", "MINSTEPS": 3, "MAXDATA": 5, "MAXHDRS": 3,
         "HEAVY": "{}", "FIRSTH": "TRUE"}
@@ -332,7 +332,7 @@ def check_c35(ctx):
     ctx.cov["constants"]["MC_Conn35"] = mc
     ctx.tlc_must_pass(SPEC, "ConnMC", "Conn_MC35.cfg", defines=mc, timeout=2400, coverage=not q)
     cases = []
-    g = defs(MAXS=2, SIDS="{1,2,3,5}", KINDS=ALLKINDS, REQS=ALLREQS, TRAILERS='{"trailers","trailerspseudo","trailersupper"}',
+    g = defs(MAXS=2, SIDS="{1,2,3,5,7}", KINDS=ALLKINDS, REQS=ALLREQS, TRAILERS='{"trailers","trailerspseudo","trailersupper"}',
              DATALENS="{0,1,%d}" % U, PADS="{0,1}", WUINCS="{0,1,2147483647}", IWS="IwsAll", MFS="MfsAll",
              HOPS='{"read","write","ret"}', STEPS=7, MINSTEPS=3, MAXHDRS=5, HEAVY='{"HEADERS"}', FIRSTH="FALSE")
     ctx.cov["constants"]["Gen_C35"] = g
@@ -344,6 +344,13 @@ def check_c35(ctx):
               STEPS=2, MINSTEPS=1, FIRSTH="FALSE")
     ctx.cov["constants"]["Gen_C35_exhaustive2"] = gx
     cases += gen(ctx, gx, 0, 0, "C35-exhaustive", exhaustive=True)
+    # the advertised concurrency limit: every sequence of 3 (thorough 4) stimuli made of requests (valid,
+    # malformed at request level, malformed at header-block level) on 3 stream ids, RST_STREAM and
+    # handler returns against a limit of 1
+    gl = defs(MAXS=1, SIDS="{1,3,5}", ESS="{TRUE}", KINDS='{"HEADERS","RST"}', REQS='{"get","nopath","upper"}',
+              TRAILERS="{}", HOPS='{"ret"}', STEPS=3 if q else 4, MINSTEPS=1, FIRSTH="TRUE")
+    ctx.cov["constants"]["Gen_C35_limit"] = gl
+    cases += gen(ctx, gl, 0, 0, "C35-limit", exhaustive=True)
     if not q:
         gx3 = dict(gx, STEPS=3, FIRSTH="TRUE")
         ctx.cov["constants"]["Gen_C35_exhaustive3"] = gx3
@@ -439,7 +446,7 @@ def run_resp(ctx, cases, label):
 def check_c38(ctx):
     q = ctx.tier == "quick"
     d = {"METHODS": '{"GET","HEAD"}', "STATUSES": "{0,200,204,304,404}", "MAXITEMS": 1 if q else 2,
-         "PLANS": "{1,2,4,6,7}" if q else "{1,2,3,4,5,6,7}", "TRAILERS": '{"none","declared","prefix"}',
+         "PLANS": "{1,2,4,6,7,8}" if q else "{1,2,3,4,5,6,7,8}", "TRAILERS": '{"none","declared","prefix"}',
          "CLS": '{"none","exact"}'}
     ctx.cov["constants"]["ConnResp"] = d
     r = ctx.tlc(SPEC, "ConnResp", "ConnResp.cfg", mode="mc", defines=d, timeout=1500)
@@ -460,12 +467,13 @@ def check_c38(ctx):
 # ---------------------------------------------------------------------------- C37
 FLOOD_CAP = 256                       # octets the server->client direction holds while the client does not read
 FLOOD_ESCAPE = (FLOOD_CAP + 4096) // 9 + 16   # frames that can leave the queue before the writer blocks
+FLOOD_HIST = 3 * FLOOD_ESCAPE          # a connection with a past: answered PINGs before the flood
 
 
 def run_flood(ctx, cases, label):
     for i, c in enumerate(cases):
         c["id"] = i + 1
-    send = [{"id": c["id"], "cap": FLOOD_CAP, "bursts": [{"k": b["k"], "n": b["n"]} for b in c["bursts"]]} for c in cases]
+    send = [{"id": c["id"], "cap": FLOOD_CAP, "hist": c.get("hist", 0), "bursts": [{"k": b["k"], "n": b["n"]} for b in c["bursts"]]} for c in cases]
     res = ctx.harness("h2conn", ["flood"], cases=send, timeout=1500)
     crash = [r for r in res if "_harness_exit" in r]
     if crash or not [r for r in res if r.get("summary")]:
@@ -477,15 +485,16 @@ def run_flood(ctx, cases, label):
         if o is None or o.get("hang"):
             raise vlib.MachineryError("flood case did not complete: %s %s" % (c["bursts"], o))
         kinds = "+".join(sorted({b["k"] for b in c["bursts"]}))
-        ctx.count([(b["k"], b["n"]) for b in c["bursts"]])
+        ctx.count([c.get("hist", 0)] + [(b["k"], b["n"]) for b in c["bursts"]])
         bad = []
         if o.get("panic"):
             bad.append(("panic", o["panic"]))
         for b, smp in zip(c["bursts"], o["samples"]):
             if o["limit"] != b["bound"]:
                 raise vlib.MachineryError("server limit %s differs from the spec constant %s" % (o["limit"], b["bound"]))
-            if not smp["closed"] and smp["queued"] > b["bound"]:
-                bad.append(("over-limit", "queued %d > %d after %s" % (smp["queued"], b["bound"], b)))
+            if not smp["closed"] and max(smp["queued"], smp["real"]) > b["bound"]:
+                bad.append(("over-limit", "control frames pending: counter %d, really queued %d > %d after %s" % (
+                    smp["queued"], smp["real"], b["bound"], b)))
             if b["mustClose"] and not smp["closed"]:
                 bad.append(("not-closed", "connection still up after %s (queued %d)" % (b, smp["queued"])))
             if smp["closed"] and not b["mayClose"]:
@@ -494,9 +503,10 @@ def run_flood(ctx, cases, label):
             bad.append(("delivered", "%d control frames delivered after resuming" % o["received"]))
         for what, det in bad[:1]:
             n += 1
-            ctx.report("%s/%s" % (what, kinds), "bursts %s: %s; observed %s" % (
-                [(b["k"], b["n"]) for b in c["bursts"]], det, json.dumps(o)[:600]),
-                case={"bursts": c["bursts"]}, harness="h2conn", cmd="flood")
+            ctx.report("%s/%s/%s" % (what, kinds, "fresh" if not c.get("hist") else "used"),
+                       "after %d answered PINGs, bursts %s: %s; observed %s" % (
+                           c.get("hist", 0), [(b["k"], b["n"]) for b in c["bursts"]], det, json.dumps(o)[:600]),
+                       case={"hist": c.get("hist", 0), "bursts": c["bursts"]}, harness="h2conn", cmd="flood")
     if early:
         ctx.drift("action=flood %d behaviours: connection closed although at most Limit control frames were elicited" % early)
     ctx.traces(len(cases))
@@ -511,9 +521,9 @@ def check_c37(ctx):
     ctx.cov["constants"]["MC_ConnFlood"] = dict(mc, Limit=3, Escape=2, Bursts="{1,2,4}")
     ctx.tlc_must_pass(SPEC, "ConnFlood", "ConnFlood_MC.cfg", defines=mc, timeout=1500, want_cases=False)
     g = {"ESCAPE": FLOOD_ESCAPE, "BURSTS": "{1,2,4000,5000,6000,9999,10001,%d}" % (10001 + FLOOD_ESCAPE),
-         "KINDS": '{"PING","WU0","DATAC","SETTINGS"}', "STEPS": 3}
+         "KINDS": '{"PING","WU0","DATAC","SETTINGS"}', "STEPS": 3, "HISTS": "{0, 1, %d}" % FLOOD_HIST}
     ctx.cov["constants"]["Gen_ConnFlood"] = dict(g, Limit=10000)
-    r = ctx.tlc(SPEC, "ConnFlood", "ConnFlood_Gen.cfg", mode="sim", sim_num=100 if q else 500, sim_depth=6,
+    r = ctx.tlc(SPEC, "ConnFlood", "ConnFlood_Gen.cfg", mode="sim", sim_num=100 if q else 500, sim_depth=8,
                 defines=g, timeout=900, count=False)
     if not r.ok:
         raise vlib.MachineryError("ConnFlood generator failed: %s %s" % (r.error or r.violation, r.out[-600:]))
@@ -521,7 +531,7 @@ def check_c37(ctx):
     for c in r.cases:
         if "bursts" not in c:
             continue
-        k = json.dumps([(b["k"], b["n"]) for b in c["bursts"]])
+        k = json.dumps([c.get("hist", 0)] + [(b["k"], b["n"]) for b in c["bursts"]])
         if k not in seen:
             seen.add(k)
             cases.append(c)
